@@ -55,8 +55,9 @@ func main() {
 		"Retrigger kind: a rollup job is parked inside its target work (kv/table file seam), 1-3 further triggers (Store.ForceRollup / family.rollup) arrive from other goroutines; each is refused by the running job or - " +
 		"when it reads the family's live rollup files outside the running job - held at a gate around the family version until the job's goroutine is gone, then continues (optionally after one more flush); " +
 		"storm kind: 2-6 goroutines trigger repeatedly while files are flushed; both are judged at quiescence with the same exactly-once oracle. " +
-		"Fault kind: one file-system step (create | first write while merging | first footer write | close) of the output table a rollup job writes into its month- or year-type target " +
-		"returns an i/o error (kv/table file seam, only for the goroutine inside doRollupWork; stratified over step kind x target type), the node keeps running; then ForceRollup again, optionally after a reopen, " +
+		"Fault kind: one file-system step (create | first write while merging | first footer write | close) of the output table a rollup job writes into its month- or year-type target, or one manifest record write " +
+		"(the target family's commit of the job's results | the source family's commit of the mark removal | the target's reference cleanup commit; not executed, the manifest stays as it was) " +
+		"returns an i/o error (kv/table and kv/version seams, only for the goroutine inside the rollup job; stratified over step kind x target type), the node keeps running; then ForceRollup again, optionally after a reopen, " +
 		"more flushes or a second failed job; same exactly-once oracle after the failed job and after every later step (a failed job may keep its marks, nothing else is waived). " +
 		"Non-trivial = a completed rollup job whose target agrees cell by cell (distinct by history, step, target type) or a crash image strictly inside the rollup (distinct by content hash).")
 	c.Assume("source tables are written with the real metricsdata flusher through the kv family of the real source data family, bypassing the write window (that is what allows old calendar positions); the flusher/reader pair is property C03's subject")
@@ -83,7 +84,7 @@ func main() {
 	// appended behind the older kinds so that their indices (and with them their generated histories) stay what they were
 	add("retrigger", "UTC", c.Pick(32, 600))
 	add("storm", "UTC", c.Pick(12, 200))
-	add("fault", "UTC", c.Pick(32, 640))
+	add("fault", "UTC", c.Pick(42, 840))
 
 	scratch := c.Scratch()
 	// batches: crash histories alone, the others a few per child, one time zone per child
@@ -213,16 +214,17 @@ func main() {
 		c.Inconclusive("only %d rollup jobs ran into an injected failing file-system step", n)
 	}
 	for _, k := range faultKinds {
-		if n := c.Counter("fault.failing_steps_injected.kind." + k); n < 3 {
+		n := c.Counter("fault.failing_steps_injected.kind." + k)
+		if n < 3 {
 			c.Inconclusive("only %d rollup jobs ran into an injected failing step of kind %s", n, k)
+		}
+		if m := c.Counter("fault.failed_jobs_judged.kind." + k); m != n {
+			c.Inconclusive("%d failing steps of kind %s were injected, but the outcome (marks kept or removed) of %d such jobs was judged", n, k, m)
 		}
 	}
 	for _, typ := range []string{"month", "year"} {
 		if n := c.Counter("fault.failing_steps_injected.target." + typ); n < 6 {
 			c.Inconclusive("only %d rollup jobs into %s-type targets ran into an injected failing step", n, typ)
-		}
-		if n := c.Counter("fault.failed_jobs_that_kept_their_rollup_marks."+typ) + c.Counter("fault.failed_jobs_that_removed_their_rollup_marks."+typ); n != c.Counter("fault.failing_steps_injected.target."+typ) {
-			c.Inconclusive("%d failing steps were injected into jobs for %s-type targets, but %d such jobs were judged (marks kept or removed)", c.Counter("fault.failing_steps_injected.target."+typ), typ, n)
 		}
 	}
 	if n := c.Counter("reopens_with_pending_rollup_marks"); n < 2 {
@@ -427,7 +429,7 @@ func genSpec(rnd *rand.Rand, j job, c *core.Ctx) *histSpec {
 		}
 	}
 	if j.Kind == "fault" {
-		s.Scenario = []string{"fault-first-rollup", "fault-reopen-before-retry", "fault-second-rollup", "fault-twice"}[(j.Idx/8+int(c.Seed))%4]
+		s.Scenario = []string{"fault-first-rollup", "fault-reopen-before-retry", "fault-second-rollup", "fault-twice"}[(j.Idx/3+int(c.Seed))%4]
 		if s.Src == msSecond {
 			s.Src = 30 * msSecond
 		}
@@ -597,12 +599,12 @@ func genSpec(rnd *rand.Rand, j job, c *core.Ctx) *histSpec {
 		spot(year, month, day, rnd.Intn(24), "hour")
 		steps(fl(0), "retrigger", fl(0), "retrigger", "rollup", "reopen", fl(0), "retrigger", "rollup")
 	// fault histories: exactly one source family carries rollup marks when a job runs into the failing step; the step kind
-	// and the target type are stratified over the history index (8 consecutive histories = all 8 combinations)
+	// and the target type are stratified over the history index (14 consecutive histories = all 14 combinations)
 	case "fault-first-rollup", "fault-reopen-before-retry", "fault-second-rollup", "fault-twice":
 		combo := j.Idx + int(c.Seed)
 		typ := []string{"month", "year"}[combo%2]
 		other := []string{"year", "month"}[combo%2]
-		kind := faultKinds[(combo/2)%4]
+		kind := faultKinds[(combo/2)%len(faultKinds)]
 		fr := func(typ, kind string) string { return "faultrollup:" + typ + "/" + kind }
 		spot(year, month, day, 12, "filler-hour")
 		spot(year, month, day, []int{0, 23, 5, 1 + rnd.Intn(22)}[rnd.Intn(4)], "hour")
@@ -623,11 +625,11 @@ func genSpec(rnd *rand.Rand, j job, c *core.Ctx) *histSpec {
 			steps("rollup", "tcompact", "reopen", "rollup")
 		default: // a second failed job: on the other target (if configured) or the retry on the same one, with another step kind
 			nf(1, 2, 1)
-			steps(fr(typ, kind), fr(other, faultKinds[(combo/2+1+rnd.Intn(3))%4]))
+			steps(fr(typ, kind), fr(other, faultKinds[(combo/2+1+rnd.Intn(len(faultKinds)-1))%len(faultKinds)]))
 			if rnd.Intn(2) == 0 {
 				steps("reopen")
 			}
-			steps("rollup", "rollup", fl(1), fr(typ, faultKinds[rnd.Intn(4)]), "rollup")
+			steps("rollup", "rollup", fl(1), fr(typ, faultKinds[rnd.Intn(len(faultKinds))]), "rollup")
 		}
 	case "storm-two-families":
 		spot(year, month, day, rnd.Intn(24), "hour")
